@@ -10,6 +10,68 @@ NT = lambda acc, rej, ab, obs, runs: acc >= 2 and rej >= 1
 WHICH = ("c01",)
 
 
+def odd_places_and_hooks(ctx):
+    """whole `Lithium.main` runs in two set-ups a harness can produce: (1) the testcase lives INSIDE the --tempdir under a
+    name Lithium itself uses there (re-reducing `tmp1/2-interesting.txt` with `--tempdir tmp1`); (2) the condition script
+    has init()/cleanup() hooks that save the file and put the saved bytes back.  The file ends as the last accepted version"""
+    import contextlib
+    import io
+    import os
+    import shutil
+    import sys
+    from lithium.reducer import Lithium
+    from .. import loaders
+
+    d = loaders.scratch() / "c01-odd"
+    if d.exists():
+        shutil.rmtree(d)
+    d.mkdir()
+    (d / "c01_odd.py").write_text(
+        "import os\nSAVED = {}\nACCEPTED = []\n"
+        "def init(args):\n    if os.environ.get('C01_HOOKS'):\n        SAVED['orig'] = open(args[-1], 'rb').read()\n"
+        "def interesting(args, prefix):\n    data = open(args[-1], 'rb').read()\n    v = b'keep' in data and b'x' not in data[:1]\n"
+        "    if v:\n        ACCEPTED.append(data)\n    return v\n"
+        "def cleanup(args):\n    if os.environ.get('C01_HOOKS'):\n        open(args[-1], 'wb').write(SAVED['orig'])\n")
+    cwd = os.getcwd()
+    os.chdir(d)
+    try:
+        for scenario in ("inside-tempdir", "hooks-restore-file"):
+            for flag in ("--lines", "--char"):
+                for strategy in ("minimize", "minimize-around", "minimize-balanced"):
+                    td = d / "tmp1"
+                    if td.exists():
+                        shutil.rmtree(td)
+                    td.mkdir()
+                    tc = (td / "2-interesting.txt") if scenario == "inside-tempdir" else (d / "tc.txt")
+                    data = b"a\nb\nkeep\nc\nd\ne\n"
+                    tc.write_bytes(data)
+                    sys.modules.pop("c01_odd", None)
+                    if scenario == "hooks-restore-file":
+                        os.environ["C01_HOOKS"] = "1"
+                    argv = [flag, "--strategy=" + strategy, "--tempdir=" + str(td), "c01_odd.py", str(tc)]
+                    case = dict(cli=True, argv=argv[:-1], scenario=scenario, data=common.enc_bytes(data))
+                    res = None
+                    try:
+                        with contextlib.redirect_stdout(io.StringIO()), contextlib.redirect_stderr(io.StringIO()):
+                            res = Lithium().main(argv)
+                    except (Exception, SystemExit) as exc:  # pylint: disable=broad-except
+                        res = f"{type(exc).__name__}: {exc}"
+                    finally:
+                        os.environ.pop("C01_HOOKS", None)
+                    ctx.evaluations += 1
+                    ctx.bump("odd-places-and-hooks")
+                    accepted = sys.modules["c01_odd"].ACCEPTED if "c01_odd" in sys.modules else []
+                    final = tc.read_bytes() if tc.exists() else None
+                    if not accepted or final != accepted[-1]:
+                        ctx.fail("final-not-last-accepted", f"{scenario}: main({argv[:-1]}) -> {res}: the file holds {final!r}, the last version the test "
+                                 f"accepted is {accepted[-1] if accepted else None!r}", case)
+                    if len(accepted) >= 2:
+                        ctx.nontriv("odd", scenario, flag, strategy)
+    finally:
+        os.chdir(cwd)
+        sys.modules.pop("c01_odd", None)
+
+
 def search(ctx):
     drv.d1(ctx, WHICH, 6000, NT, do_model=False)
     drv.d2_random(ctx, WHICH, NT, 600, do_model=False)
@@ -24,6 +86,7 @@ def run(ctx) -> int:
     drv.d2_random(ctx, WHICH, NT, 3000 if ctx.thorough else 900, aborts=False)
     drv.d2_content_oracles(ctx, WHICH, NT)
     drv.d2_touching_test(ctx, WHICH, 600 if ctx.thorough else 150)
+    odd_places_and_hooks(ctx)
     return common.decide(ctx, proof, RULE, search=search,
                          assumptions=["candidate construction of the two rewriting strategies is not modelled: for them 'a rejected candidate never becomes the basis of later candidates' is the iterator-level theorem C01_best_is_last_accepted plus the monitor"])
 
